@@ -74,6 +74,8 @@ type GenOpts struct {
 	Whale bool
 	// BlockTimes: draw the average-block-time parameters instead of leaving the defaults
 	BlockTimes bool
+	// ParamSalt: all remaining parameters get non-default values
+	ParamSalt bool
 }
 
 var ethIds = []string{
@@ -151,6 +153,9 @@ func GenConfig(t *rapid.T, o GenOpts) sim.Config {
 	}
 	// a short signed-signer-set window lets BeginBlocker prune observed signer sets within a history
 	cfg.SignerSetWindow = rapid.SampledFrom([]uint64{1, 3, 10000, 10000}).Draw(t, "sswindow")
+	if o.ParamSalt {
+		cfg.ParamSalt = uint64(rapid.IntRange(1, 500).Draw(t, "paramsalt"))
+	}
 	if o.BlockTimes {
 		// average block times (params): external chains faster and slower than the hub (0 = the defaults 5000 / 15000 / 5000)
 		cfg.AvgBlockTime = rapid.SampledFrom([]uint64{0, 0, 1000, 5000, 6000, 20000}).Draw(t, "avgblock")
@@ -218,7 +223,7 @@ func genFee(t *rapid.T, label string) string {
 
 var defaultWeights = map[string]int{
 	"send": 30, "cancel": 7, "reqbatch": 7, "deposit": 4, "transfer": 6, "exec": 4,
-	"tick": 2, "hb": 1, "relay": 5, "block": 24, "burst": 0, "xexec": 14, "xtick": 7, "send2": 4, "hostile": 0, "oprice": 0, "oholders": 0, "sign": 0, "byz": 0, "xround": 0, "xlag": 0, "xwhale": 0,
+	"tick": 2, "hb": 1, "relay": 5, "block": 24, "burst": 0, "xexec": 14, "xtick": 7, "send2": 4, "hostile": 0, "oprice": 0, "oholders": 0, "sign": 0, "byz": 0, "xround": 0, "xlag": 0, "xwhale": 0, "ss0": 0,
 }
 
 // GenOps draws the operation list for a configuration.
@@ -236,7 +241,7 @@ func GenOps(t *rapid.T, cfg sim.Config, o GenOpts) []Op {
 	if o.Bursts && w["burst"] == 0 {
 		w["burst"] = 2
 	}
-	kinds := []string{"send", "cancel", "reqbatch", "deposit", "transfer", "exec", "tick", "hb", "relay", "block", "burst", "xexec", "xtick", "send2", "hostile", "oprice", "oholders", "sign", "byz", "xround", "xlag", "xwhale"}
+	kinds := []string{"send", "cancel", "reqbatch", "deposit", "transfer", "exec", "tick", "hb", "relay", "block", "burst", "xexec", "xtick", "send2", "hostile", "oprice", "oholders", "sign", "byz", "xround", "xlag", "xwhale", "ss0"}
 	total := 0
 	for _, k := range kinds {
 		total += w[k]
@@ -393,6 +398,8 @@ func GenOps(t *rapid.T, cfg sim.Config, o GenOpts) []Op {
 		case "tick":
 			op.C = chainGen.Draw(t, "c")
 			op.N = rapid.SampledFrom([]int{1, 2, 5, 10, 50, 10000}).Draw(t, "n")
+		case "ss0":
+			op.C = chainGen.Draw(t, "c")
 		case "hb":
 			op.C = chainGen.Draw(t, "c")
 			op.T = lag(t)
